@@ -264,6 +264,7 @@ pub struct Recorder {
     pub exhaustive: Mutex<Option<bool>>,
     pub known: Vec<KnownFinding>,
     pub digest: Mutex<BTreeMap<String, u64>>,
+    notes: Mutex<BTreeMap<String, (u64, Option<Value>)>>,
 }
 
 impl Recorder {
@@ -289,6 +290,7 @@ impl Recorder {
             exhaustive: Mutex::new(None),
             known: load_known(&args.known_findings),
             digest: Mutex::new(BTreeMap::new()),
+            notes: Mutex::new(BTreeMap::new()),
         }
     }
     /// enough violations recorded: engines may stop exploring (the verdict is already VIOLATION)
@@ -336,6 +338,16 @@ impl Recorder {
     }
     pub fn want_sample(&self) -> bool {
         self.samples.lock().unwrap().len() < MAX_SAMPLES
+    }
+    /// An observation that goes beyond what the property states (e.g. WHICH error kind a refusal carries when the statement
+    /// only says "refused"): counted and reported in evidence with one example, never a verdict.
+    pub fn note(&self, name: &str, example: impl FnOnce() -> Value) {
+        let mut k = self.notes.lock().unwrap();
+        let e = k.entry(name.to_string()).or_insert((0, None));
+        e.0 += 1;
+        if e.1.is_none() {
+            e.1 = Some(example());
+        }
     }
     /// A disagreement between implementation and model on `case`.
     pub fn violation(&self, sweep: &str, case: Value, expected: Value, got: Value) {
@@ -404,6 +416,10 @@ impl Recorder {
         cov.insert("caps_hit".into(), json!(*self.caps.lock().unwrap()));
         cov.insert("sub_sweeps".into(), Value::Object(self.sub.lock().unwrap().clone()));
         cov.insert("known_findings_met".into(), Value::Object(known_json));
+        let notes = self.notes.lock().unwrap();
+        if !notes.is_empty() {
+            cov.insert("not_judged_notes".into(), json!(notes.iter().map(|(k, (n, ex))| (k.clone(), json!({"cases": n, "example": ex}))).collect::<BTreeMap<_, _>>()));
+        }
         let dg = self.digest.lock().unwrap();
         if !dg.is_empty() {
             cov.insert("digests".into(), json!(dg.iter().map(|(k, v)| (k.clone(), format!("{v:016x}"))).collect::<BTreeMap<_, _>>()));
